@@ -223,7 +223,7 @@ func (w *w13) finalCheck(l *ipfslog.IPFSLog, name string, bounded bool) (string,
 	}
 	u := w.universe()
 	if !bounded {
-		if miss := missingPast(l, u); len(miss) > 0 {
+		if miss := missingPast(l, u); len(miss) > 0 && !w.truncated {
 			add("final:not-causally-closed", fmt.Sprintf("%s holds entries whose predecessors %v exist but are missing from it", name, miss))
 		}
 		// every append on l appears exactly once
